@@ -35,6 +35,7 @@ func c18Scenario(name string, pre []c18Write, threads []c18Thread) *scenario {
 		return w.WriteCS(wr.key, csFixed([]time.Time{wr.t}, []string{"V", "W"}, cols), false)
 	}
 	return &scenario{
+		races: true, // C18: "the server has no data races"
 		name: name,
 		cfg:  nil,
 		body: func(x *execCtx) {
